@@ -28,9 +28,24 @@ func drawWorld17(r *rng.R, lib *library) *Case {
 	}
 	shareProto(r, &c.World, &models)
 	nt := []int{2, 2, 2, 3, 3, 4, 6, 8, 16}[r.Intn(9)]
+	// worlds on image-sized or otherwise large inputs stay small: two callers, two calls each are enough for two Runs
+	// to overlap, and a statement-instrumented (or race-instrumented) convolution over 65 536 elements costs seconds
+	heavy := false
+	for _, dm := range models {
+		for _, set := range dm.inputSets {
+			for _, v := range set {
+				if v != nil && len(v.Bits) > 8192 {
+					heavy = true
+				}
+			}
+		}
+	}
+	if heavy {
+		nt = 2
+	}
 	for ti := 0; ti < nt; ti++ {
 		n := r.Range(1, 4)
-		if nt > 6 {
+		if nt > 6 || heavy {
 			n = r.Range(1, 2)
 		}
 		c.World.Tasks = append(c.World.Tasks, drawTask(r, models, n, true))
